@@ -103,6 +103,13 @@ def strategy(tier):
     return _case()
 
 
+def _refusal(m):
+    """a stand-in the decoder hands out for a PDU it does NOT accept as a message of its function (executing it only builds an
+    exception response): the malformed frame is refused, not delivered as that message"""
+    from pymodbus.pdu import IllegalFunctionRequest, ExceptionResponse
+    return isinstance(m, (IllegalFunctionRequest, ExceptionResponse))
+
+
 # message kinds whose PDU size does not depend on their content
 FIXED_PDU = {'req': {1: 5, 2: 5, 3: 5, 4: 5, 5: 5, 6: 5, 22: 7}, 'rsp': {5: 5, 6: 5, 15: 5, 16: 5, 22: 7}}
 
@@ -224,7 +231,7 @@ def run_case(case):
             tid = m.transaction_id if (m is not None and framing == 'tcp') else None
             pid = m.protocol_id if (m is not None and framing == 'tcp') else None
             fixed = FIXED_PDU[direction].get(pdu[0]) if pdu else None
-            if framing == 'tcp' and m is not None and fixed is not None and len(pdu) != fixed:
+            if framing == 'tcp' and m is not None and fixed is not None and len(pdu) != fixed and not _refusal(m):
                 # "an MBAP length consistent with the PDU": a message of a fixed-size kind was delivered from a frame whose
                 # length field covers more (or fewer) bytes than that message has
                 discs.append(Disc('unjustified-delivery', 'tcp %s: a %d-byte PDU %s was delivered as function %d, whose PDU has %d bytes (MBAP length not consistent with the message); fed %s' % (
